@@ -704,6 +704,12 @@ func (enc *VP8Encoder) importImage(img image.Image) {
 	// For opaque images (the common case), premultiplied == non-premultiplied.
 	nrgba, isNRGBA := img.(*image.NRGBA)
 	rgba, isRGBA := img.(*image.RGBA)
+	// A premultiplied *image.RGBA with transparency must go through the generic
+	// path (color.NRGBAModel un-premultiplies); only opaque RGBA pixels equal
+	// their non-premultiplied form.
+	if isRGBA && hasAlpha {
+		isRGBA = false
+	}
 	isDirect := isNRGBA || isRGBA
 	var pix []uint8
 	var pixStride int
